@@ -50,10 +50,12 @@
    Non-unique many-valued references are therefore outside refslot.
 
    PARTIAL (what is not proved here):
-   * with containment, the history-level statements (`…_history_partial`) take
-     symmetry + shape of the reached state as a premise: that is property C01
-     for metamodels with containment, not yet a theorem along histories; every
-     other premise (inv_ok, uniq_ok, decl_ok) is established along the history;
+   * (closed since: with containment, the `…_history_partial` statements take symmetry +
+     shape of the reached state as a premise; for EMF-well-formed metamodels
+     (wf_mm) that premise is now discharged by the global invariant —
+     theorems C07_no_dangling_after_delete_in_every_history,
+     C07_exact_frame_after_delete_in_every_history and
+     C07_deleted_objects_uncontained_in_every_history at the end of this file);
    * that every transitive content of x is deleted (the converse inclusion,
      beyond direct contents) needs acyclicity of containment and enough fuel;
    * how many occurrences a NON-unique collection loses is only bounded
@@ -62,7 +64,7 @@
    harness/props/c07.py. *)
 From Coq Require Import ZArith List Bool Arith.
 From PyecoreV Require Import Lib.PyBase Lib.PyList Model.Kernel Proofs.KernelFacts Proofs.WFBase
-     Proofs.C01Proofs Proofs.C01Full Proofs.C07Proofs Proofs.C07Full.
+     Proofs.C01Proofs Proofs.C01Full Proofs.C07Proofs Proofs.C07Full Proofs.C07Hist.
 Import ListNotations.
 
 Theorem C07_delete_never_adds_a_reference_partial :
@@ -343,3 +345,36 @@ Example C07_witness :
   let s := fold_left (next ex_mm) [OAppend 0 0 (VObj 1); ODelete 1 true] (init_state ex_mm) in
   vals s (0, 0) = [].
 Proof. vm_compute. reflexivity. Qed.
+
+(* ---------- every history of an EMF-well-formed metamodel, containment included ---------- *)
+Theorem C07_no_dangling_after_delete_in_every_history :
+  forall m, wf_mm m -> wf_typed m -> ref_defaults_none m ->
+  forall ops, Forall (op_fits m) ops -> Forall (op_appl m) ops ->
+  forall x r d a f,
+    In d (deleted m (S (length (ocls m))) (fold_left (next m) ops (init_state m)) x r) ->
+    refslot m f ->
+    ~ In (VObj d) (vals (next m (fold_left (next m) ops (init_state m)) (ODelete x r)) (a, f)).
+Proof. exact wf_history_delete_no_dangling. Qed.
+Print Assumptions C07_no_dangling_after_delete_in_every_history.
+
+Theorem C07_exact_frame_after_delete_in_every_history :
+  forall m, wf_mm m -> wf_typed m -> ref_defaults_none m ->
+  forall ops, Forall (op_fits m) ops -> Forall (op_appl m) ops ->
+  forall x r a f,
+    ~ In a (deleted m (S (length (ocls m))) (fold_left (next m) ops (init_state m)) x r) ->
+    refslot m f ->
+    vals (next m (fold_left (next m) ops (init_state m)) (ODelete x r)) (a, f) =
+    fold_left (fun l d => Ex m d f l)
+      (deleted m (S (length (ocls m))) (fold_left (next m) ops (init_state m)) x r)
+      (vals (fold_left (next m) ops (init_state m)) (a, f)).
+Proof. exact wf_history_delete_frame. Qed.
+Print Assumptions C07_exact_frame_after_delete_in_every_history.
+
+Theorem C07_deleted_objects_uncontained_in_every_history :
+  forall m, wf_mm m -> wf_typed m -> ref_defaults_none m ->
+  forall ops, Forall (op_fits m) ops -> Forall (op_appl m) ops ->
+  forall x r d,
+    In d (deleted m (S (length (ocls m))) (fold_left (next m) ops (init_state m)) x r) ->
+    cont (next m (fold_left (next m) ops (init_state m)) (ODelete x r)) d = None.
+Proof. exact wf_history_deleted_uncontained. Qed.
+Print Assumptions C07_deleted_objects_uncontained_in_every_history.
